@@ -90,8 +90,18 @@ pub fn mk_lang(name: &str) -> Lang {
     }
 }
 
-pub const XK_COMPOSE: [(&str, &str); 6] =
-    [("か\u{3099}", "が"), ("き\u{3099}", "ぎ"), ("は\u{3099}", "ば"), ("は\u{309a}", "ぱ"), ("ウ\u{3099}", "ヴ"), ("ש\u{5c1}", "\u{fb2a}")];
+/// Six two-to-one compositions and two singleton (one-to-one) canonical mappings: ANGSTROM SIGN -> A with
+/// ring, GREEK ALPHA WITH OXIA -> ALPHA WITH TONOS (a composition need not shorten the text).
+pub const XK_COMPOSE: [(&str, &str); 8] = [
+    ("か\u{3099}", "が"),
+    ("き\u{3099}", "ぎ"),
+    ("は\u{3099}", "ば"),
+    ("は\u{309a}", "ぱ"),
+    ("ウ\u{3099}", "ヴ"),
+    ("ש\u{5c1}", "\u{fb2a}"),
+    ("\u{212b}", "\u{c5}"),
+    ("\u{1f71}", "\u{3ac}"),
+];
 pub const XK_REDUCE: [(&str, &str); 7] = [("が", "か"), ("ぎ", "き"), ("ば", "は"), ("ぱ", "は"), ("ヴ", "ウ"), ("\u{fb2a}", "ש"), ("ゟ", "より")];
 
 fn lang_custom() -> Lang {
